@@ -574,6 +574,8 @@ def run(tier):
          "keys": [list(b"K00"), list(b"K49"), list(b"K25"), list(b"K50"), list(b"K4"), list(b"K07"), list(b"K"), list(b"novalue")]},
         # non-UTF-8 name and key (var_unix only), non-UTF-8 value
         {"argv": [[255, 254], [97]], "env": [[255, 61, 120], [65, 61, 255], [255, 255, 61, 121]], "keys": [[255], [65], [255, 255], [255, 255, 255]]},
+        # a 20 000-byte argument and a 20 000-byte value
+        {"argv": [[97], [76] * 20000, []], "env": [[66, 61] + [77] * 20000, [65, 61, 120]], "keys": [[66], [65]]},
         # 200-byte key and name
         {"argv": [[97]], "env": [[76] * 199 + [61, 49], [76] * 200 + [61, 50], [76] * 201 + [61, 51]], "keys": [[76] * 200, [76] * 198, [76] * 202]},
     ]
